@@ -5,7 +5,7 @@
 (*            variables equal the Zerv variables (short hashes = first 8 characters) *)
 (*  functions: sanitize = the sanitiser contract; prefix / prefix_if; hash and       *)
 (*            hash_int (opaque value, contract on shape); format_timestamp = the UTC *)
-(*            calendar for the strftime subset %Y %y %m %d %H %M %S %j %-m %-d %%.   *)
+(*            calendar for chrono's strftime directives (see format_timestamp below). *)
 EXTENDS Render
 
 \* ---- sanitize(value, preset=... | separator=, lowercase=, keep_zeros=, max_length=) ----
@@ -43,27 +43,114 @@ HashIntOk(n, allowZero, out) ==
   /\ ~allowZero => (out[1] # ZERO \/ Len(out) = 1)
 
 \* ---- format_timestamp ----
+(* strftime as chrono documents it, evaluated on the UTC civil fields: numeric directives with    *)
+(* the padding modifiers - (none), _ (space), 0 (zero); English day / month names; 12-hour     *)
+(* clock; week numbers %U (Sunday first) %W (Monday first) and the ISO 8601 week date %G %g %V; *)
+(* the composites %D %F %T %R %r %c %v %x %X %+; the zone directives, which for UTC are the    *)
+(* constants +0000 / +00:00 / +00:00:00 / +00 / UTC; %f (no sub-second part: nine zeros); %s   *)
+(* (the instant itself, echoed from the event because it exceeds TLC's integers).              *)
 PCT == 37
+SPACE == 32
+COLON == 58
+DayNames == <<<<77,111,110,100,97,121>>, <<84,117,101,115,100,97,121>>, <<87,101,100,110,101,115,100,97,121>>, <<84,104,117,114,115,100,97,121>>, <<70,114,105,100,97,121>>, <<83,97,116,117,114,100,97,121>>, <<83,117,110,100,97,121>>>>
+MonthNames == <<<<74,97,110,117,97,114,121>>, <<70,101,98,114,117,97,114,121>>, <<77,97,114,99,104>>, <<65,112,114,105,108>>, <<77,97,121>>, <<74,117,110,101>>, <<74,117,108,121>>, <<65,117,103,117,115,116>>, <<83,101,112,116,101,109,98,101,114>>, <<79,99,116,111,98,101,114>>, <<78,111,118,101,109,98,101,114>>, <<68,101,99,101,109,98,101,114>>>>
+FmtD == <<37,109,47,37,100,47,37,121>>                         \* %m/%d/%y
+FmtF == <<37,89,45,37,109,45,37,100>>                          \* %Y-%m-%d
+FmtT == <<37,72,58,37,77,58,37,83>>                            \* %H:%M:%S
+FmtR == <<37,72,58,37,77>>                                     \* %H:%M
+Fmtr == <<37,73,58,37,77,58,37,83,32,37,112>>                  \* %I:%M:%S %p
+Fmtc == <<37,97,32,37,98,32,37,101,32,37,72,58,37,77,58,37,83,32,37,89>>   \* %a %b %e %H:%M:%S %Y
+Fmtv == <<37,101,45,37,98,45,37,89>>                           \* %e-%b-%Y
+FmtPlus == <<37,89,45,37,109,45,37,100,84,37,72,58,37,77,58,37,83,37,58,122>>   \* %Y-%m-%dT%H:%M:%S%:z
+TxtUTC == <<85,84,67>>
+TxtZ4 == <<43,48,48,48,48>>
+TxtZ5 == <<43,48,48,58,48,48>>
+TxtZ8 == <<43,48,48,58,48,48,58,48,48>>
+TxtZ2 == <<43,48,48>>
+Nanos9 == <<48,48,48,48,48,48,48,48,48>>
+RECURSIVE SpPad(_, _)
+SpPad(t, w) == IF Len(t) >= w THEN t ELSE SpPad(<<SPACE>> \o t, w)
 Dec3(n) == PadTo(Dec(n), 3)
-Directive(ch, dashed, c, sod) ==
-  LET hh == sod \div 3600  mi == (sod % 3600) \div 60  ss == sod % 60 IN
+\* a numeric field: value, default width, default padding character, modifier (0 = none, or - _ 0)
+NumField(n, w, defpad, mod) ==
+  IF mod = DASH THEN Dec(n)
+  ELSE IF mod = USCORE \/ (mod = 0 /\ defpad = SPACE) THEN SpPad(Dec(n), w)
+  ELSE PadTo(Dec(n), w)
+\* week numbers; c.wd counts from Monday = 0
+WeekSun(c) == (c.yd + 6 - ((c.wd + 1) % 7)) \div 7
+Jan1Wd(c) == (c.wd + 371 - (c.yd - 1)) % 7
+WeeksIn(y, jan1) == IF jan1 = 3 \/ (Leap(y) /\ jan1 = 2) THEN 53 ELSE 52
+IsoWeekDate(c) ==
+  LET wk == (c.yd - (c.wd + 1) + 10) \div 7
+      j1 == Jan1Wd(c)
+      j1prev == (j1 + 371 - (IF Leap(c.y - 1) THEN 366 ELSE 365)) % 7 IN
+  IF wk = 0 THEN [y |-> c.y - 1, w |-> WeeksIn(c.y - 1, j1prev)]
+  ELSE IF wk = 53 /\ WeeksIn(c.y, j1) = 52 THEN [y |-> c.y + 1, w |-> 1]
+  ELSE [y |-> c.y, w |-> wk]
+\* a format is read left to right: % [-_0] [:]* letter
+RECURSIVE FormatFrom(_, _, _, _, _)
+Directive(ch, mod, colons, c, sod, ts) ==
+  LET hh == sod \div 3600  mi == (sod % 3600) \div 60  ss == sod % 60
+      h12 == IF hh % 12 = 0 THEN 12 ELSE hh % 12 IN
   CASE ch = 89 -> PadTo(Dec(c.y), 4)                                   \* %Y
-    [] ch = 121 -> Dec2(c.y % 100)                                     \* %y
-    [] ch = 109 -> IF dashed THEN Dec(c.m) ELSE Dec2(c.m)              \* %m  %-m
-    [] ch = 100 -> IF dashed THEN Dec(c.d) ELSE Dec2(c.d)              \* %d  %-d
-    [] ch = 72 -> Dec2(hh)  [] ch = 77 -> Dec2(mi)  [] ch = 83 -> Dec2(ss)   \* %H %M %S
-    [] ch = 106 -> Dec3(c.yd)                                          \* %j
+    [] ch = 67 -> NumField(c.y \div 100, 2, ZERO, mod)                 \* %C
+    [] ch = 121 -> NumField(c.y % 100, 2, ZERO, mod)                   \* %y
+    [] ch = 109 -> NumField(c.m, 2, ZERO, mod)                         \* %m
+    [] ch = 100 -> NumField(c.d, 2, ZERO, mod)                         \* %d
+    [] ch = 101 -> NumField(c.d, 2, SPACE, mod)                        \* %e
+    [] ch = 72 -> NumField(hh, 2, ZERO, mod)                           \* %H
+    [] ch = 107 -> NumField(hh, 2, SPACE, mod)                         \* %k
+    [] ch = 73 -> NumField(h12, 2, ZERO, mod)                          \* %I
+    [] ch = 108 -> NumField(h12, 2, SPACE, mod)                        \* %l
+    [] ch = 77 -> NumField(mi, 2, ZERO, mod)                           \* %M
+    [] ch = 83 -> NumField(ss, 2, ZERO, mod)                           \* %S
+    [] ch = 106 -> NumField(c.yd, 3, ZERO, mod)                        \* %j
+    [] ch = 85 -> NumField(WeekSun(c), 2, ZERO, mod)                   \* %U
+    [] ch = 87 -> NumField(WeekMon(c), 2, ZERO, mod)                   \* %W
+    [] ch = 86 -> NumField(IsoWeekDate(c).w, 2, ZERO, mod)             \* %V
+    [] ch = 71 -> PadTo(Dec(IsoWeekDate(c).y), 4)                      \* %G
+    [] ch = 103 -> NumField(IsoWeekDate(c).y % 100, 2, ZERO, mod)      \* %g
+    [] ch = 117 -> Dec(c.wd + 1)                                       \* %u  Monday = 1
+    [] ch = 119 -> Dec((c.wd + 1) % 7)                                 \* %w  Sunday = 0
+    [] ch = 97 -> Take(DayNames[c.wd + 1], 3)                          \* %a
+    [] ch = 65 -> DayNames[c.wd + 1]                                   \* %A
+    [] ch \in {98, 104} -> Take(MonthNames[c.m], 3)                    \* %b %h
+    [] ch = 66 -> MonthNames[c.m]                                      \* %B
+    [] ch = 112 -> IF hh < 12 THEN <<65, 77>> ELSE <<80, 77>>          \* %p
+    [] ch = 80 -> IF hh < 12 THEN <<97, 109>> ELSE <<112, 109>>        \* %P
+    [] ch = 68 -> FormatFrom(FmtD, 1, c, sod, ts)
+    [] ch = 120 -> FormatFrom(FmtD, 1, c, sod, ts)                     \* %x
+    [] ch = 70 -> FormatFrom(FmtF, 1, c, sod, ts)
+    [] ch = 84 -> FormatFrom(FmtT, 1, c, sod, ts)
+    [] ch = 88 -> FormatFrom(FmtT, 1, c, sod, ts)                      \* %X
+    [] ch = 82 -> FormatFrom(FmtR, 1, c, sod, ts)
+    [] ch = 114 -> FormatFrom(Fmtr, 1, c, sod, ts)
+    [] ch = 99 -> FormatFrom(Fmtc, 1, c, sod, ts)
+    [] ch = 118 -> FormatFrom(Fmtv, 1, c, sod, ts)
+    [] ch = 43 -> FormatFrom(FmtPlus, 1, c, sod, ts)                   \* %+
+    [] ch = 122 -> (CASE colons = 0 -> TxtZ4 [] colons = 1 -> TxtZ5 [] colons = 2 -> TxtZ8 [] OTHER -> TxtZ2)   \* %z %:z %::z %:::z
+    [] ch = 90 -> TxtUTC                                               \* %Z
+    [] ch = 102 -> Nanos9                                              \* %f
+    [] ch = 115 -> ts                                                  \* %s
     [] ch = PCT -> <<PCT>>
-RECURSIVE FormatFrom(_, _, _, _)
-FormatFrom(f, i, c, sod) ==
+RECURSIVE CountColons(_, _)
+CountColons(f, i) == IF i <= Len(f) /\ f[i] = COLON THEN 1 + CountColons(f, i + 1) ELSE 0
+FormatFrom(f, i, c, sod, ts) ==
   IF i > Len(f) THEN <<>>
-  ELSE IF f[i] = PCT /\ i + 2 <= Len(f) /\ f[i + 1] = DASH THEN Directive(f[i + 2], TRUE, c, sod) \o FormatFrom(f, i + 3, c, sod)
-  ELSE IF f[i] = PCT /\ i + 1 <= Len(f) THEN Directive(f[i + 1], FALSE, c, sod) \o FormatFrom(f, i + 2, c, sod)
-  ELSE <<f[i]>> \o FormatFrom(f, i + 1, c, sod)
-FormatTimestamp(f, inst) ==
+  ELSE IF f[i] = PCT /\ i + 1 <= Len(f) THEN
+       LET hasMod == f[i + 1] \in {DASH, USCORE, ZERO} /\ i + 2 <= Len(f)
+           mod == IF hasMod THEN f[i + 1] ELSE 0
+           j == IF hasMod THEN i + 2 ELSE i + 1
+           colons == CountColons(f, j)
+           k == j + colons IN
+       IF k <= Len(f) THEN Directive(f[k], mod, colons, c, sod, ts) \o FormatFrom(f, k + 1, c, sod, ts)
+       ELSE <<>>
+  ELSE <<f[i]>> \o FormatFrom(f, i + 1, c, sod, ts)
+FormatTimestampTs(f, inst, ts) ==
   IF f = <<99,111,109,112,97,99,116,95,100,97,116,101>> THEN Field("compact_date", inst.c, inst.sod)
   ELSE IF f = <<99,111,109,112,97,99,116,95,100,97,116,101,116,105,109,101>> THEN Field("compact_datetime", inst.c, inst.sod)
-  ELSE FormatFrom(f, 1, inst.c, inst.sod)
+  ELSE FormatFrom(f, 1, inst.c, inst.sod, ts)
+FormatTimestamp(f, inst) == FormatTimestampTs(f, inst, <<>>)
 
 \* ---- context ----
 Replace(t, a, b) == [i \in 1..Len(t) |-> IF t[i] = a THEN b ELSE t[i]]
